@@ -97,7 +97,8 @@ def run(ctx):
         "callers do not mutate the slices/maps/pointers Get hands out (the memo returns the same object again)",
         "xsync.MapOf.Compute runs its function atomically per key (concurrent clause; partial)",
         "the Config is not reloaded between requests; cfg.data is never written after FromBytes"]
-    ctx.obligations_or_violation()
+    d = gl.Deferred(ctx)
+    d.obligations()
     binp = gl.build(ctx, "c10", judge="GConfCacheJudge")
     if not binp:
         return
@@ -106,50 +107,51 @@ def run(ctx):
         "xlate_gconf", ["-src", os.path.join(ctx.copy_repo(), "gconfig"), "-set", "cache"],
         "GConfCacheGen", "Tie_C10")
     ctx.log("translator tie:", "OK" if tie_ok else "BROKEN", "-", tie_detail.splitlines()[0])
-    runs = [("corpus", ["-mode", "corpus"]),
-            ("random", ["-mode", "random", "-n", 30 if quick else 600, "-len", 200]),
-            ("conc", ["-mode", "concurrent", "-n", 2 if quick else 10, "-g", 16, "-len", 40 if quick else 200])]
+    if not tie_ok:
+        gen = os.path.join(ctx.gen, "GConfCacheGen.v")
+        ctx.cov["translator_tie"] = {"status": "BROKEN", "detail": tie_detail[-600:]}
+        d.add({"unchecked": "translator tie Tie_C10 (regenerated getFromCache refines GConfCacheModel.get_cached)",
+               "detail": tie_detail[-2500:],
+               "generated": open(gen).read()[-2500:] if os.path.isfile(gen) else None},
+              {"kind": "translator_tie"})
+
+    def runs_for(f):
+        return [("random", ["-mode", "random", "-n", (30 if quick else 600) * f, "-len", 200]),
+                ("conc", ["-mode", "concurrent", "-n", (2 if quick else 10) * f, "-g", 16, "-len", 40 if quick else 200]),
+                ("stress", ["-mode", "stress", "-n", (1000 if quick else 6000) * f, "-g", 16])]
+    runs = [("corpus", ["-mode", "corpus"])] + runs_for(1)
     cr = gl.corpus_run(ctx, "C10")
     if cr:
         runs.insert(1, cr)
     ctx.log("harness built")
-    terms, jsons, err = vlib.harness_cases(ctx, binp, runs)
-    ctx.log("harness ran: %d histories" % len(jsons))
-    if err:
-        ctx.report({"unchecked": "harness run", "detail": err}, {"kind": "harness"}, failing_input=False)
-        return
     race_note = "not run in the quick tier"
+    race_extra = None
     if not quick:
-        race_note = race_run(ctx, terms, jsons)
-    bad, nt, err = ctx.judge_cases(HEADER, CASE, JUDGE, terms, shard=4 if quick else 12,
-                                   nontrivial="c10_nontrivial")
-    if err:
-        ctx.report({"unchecked": "in-kernel evaluation of the correspondence", "detail": err},
-                   {"kind": "coq_eval"}, failing_input=False)
+        race_note, race_extra = race_run(ctx, d)
+    res = gl.correspondence(ctx, d, binp, {
+        "header": HEADER, "case_type": CASE, "judge": JUDGE, "nontrivial": "c10_nontrivial",
+        "runs": runs, "widen": runs_for, "shard": 4 if quick else 12,
+        "classify": lambda j, code: {1: "fail", 2: "model"}.get(code, "model"),
+        "shape": shape, "features": features, "view": view, "to_input": to_input,
+        "variants": variants, "size": size,
+        "minimise": lambda j: j["kind"].split("/")[0] not in ("concurrent", "stress"),
+        "min_kw": {"cap": 64, "budget_s": 25},
+        "verdict": lambda code: {1: "a request answered differently from the same request on a fresh Config, or panicked",
+                                 2: "outcomes agree with fresh Configs but differ from the Coq model of getFromCache"}[code],
+    })
+    if res is None:
         return
-    bad = gl.spread(bad, lambda b: (b[1], shape(jsons[b[0]])))
-    for i, code in bad:
-        j = jsons[i]
-        if ctx.nreplay < 3 and j["kind"] != "concurrent":
-            sh = shape(j)
-            _, mj = gl.minimise(ctx, binp, HEADER, CASE, JUDGE, to_input(j), code, variants, size,
-                                keep=lambda c: shape(c) == sh, cap=64, budget_s=25)
-            if mj is not None:
-                mj["kind"] = j["kind"] + "/minimised"
-                j = mj
-        rep = {"case": view(j), "input": to_input(j),
-               "verdict": {1: "a request answered differently from the same request on a fresh Config, or panicked",
-                           2: "outcomes agree with fresh Configs but differ from the Coq model of getFromCache"}[code],
-               "replay_cmd": "./check C10 --replay <this file>"}
-        ctx.report(rep, features(j), failing_input=(code == 1))
-    if not tie_ok:
-        ctx.cov["translator_tie"] = {"status": "BROKEN", "detail": tie_detail[-600:]}
-        if not any(c == 1 for _, c in bad):
-            gen = os.path.join(ctx.gen, "GConfCacheGen.v")
-            ctx.report({"unchecked": "translator tie Tie_C10 (regenerated getFromCache refines GConfCacheModel.get_cached)",
-                        "detail": tie_detail[-2500:],
-                        "generated": open(gen).read()[-2500:] if os.path.isfile(gen) else None},
-                       {"kind": "translator_tie"}, failing_input=False)
+    terms, jsons, bad, nt, info, widened = res
+    if race_extra:
+        # the histories recorded under the race detector are judged like the others
+        rbad, rnt, err = ctx.judge_cases(HEADER, CASE, JUDGE, race_extra[0], shard=12, tag="race")
+        if not err:
+            for i, code in rbad:
+                j = race_extra[1][i]
+                ctx.report({"case": view(j), "input": to_input(j), "verdict": "under -race: outcome differs from a fresh Config"},
+                           features(j), failing_input=(code == 1))
+            jsons = jsons + race_extra[1]
+            nt += rnt
     reqs = [q for j in jsons for q in j["ops"]]
     ctx.cov.update({
         "evaluations": len(jsons),
@@ -165,39 +167,43 @@ def run(ctx):
         "outcome_histogram": gl.hist(o["kind"] for j in jsons for o in j["obs"]),
         "history_length_histogram": gl.hist(min(len(j["ops"]) // 50 * 50, 1000) for j in jsons),
         "race_detector": race_note,
+        "stress": {"rounds": max([j.get("stress_rounds", 0) for j in jsons] or [0]),
+                   "goroutines": 16, "requests_per_goroutine": 12,
+                   "rounds_with_a_deviating_outcome": max([j.get("stress_mismatch_rounds", 0) for j in jsons] or [0]),
+                   "note": "schedule-free: every round a fresh Config, all goroutines released at once on the "
+                           "same collision-prone request list; outcomes compared with fresh Configs in the "
+                           "harness, deviating rounds (and the first two) judged in Coq like any history"},
         "exhaustive": False,
         "samples": [view(j) for j in jsons[:2] + jsons[-1:]],
         "disagreements": len(bad),
     })
-    ctx.log("correspondence: %d histories (%d non-trivial), %d requests, %d disagreement(s); race detector: %s" % (
-        len(jsons), nt, len(reqs), len(bad), race_note))
+    ctx.log("correspondence: %d histories (%d non-trivial), %d requests, %d disagreement(s)%s; race detector: %s" % (
+        len(jsons), nt, len(reqs), len(bad),
+        "; widened run: %d cases, %d verdict-1" % (widened["cases"], widened["verdict_1"]) if widened else "", race_note))
 
 
-def race_run(ctx, terms, jsons):
-    """thorough tier: the concurrent mixes again in a binary built with -race"""
+def race_run(ctx, d):
+    """thorough tier: concurrent mixes in a binary built with -race.  Returns (note, (terms, jsons)
+    of the recorded histories or None)."""
     if not shutil.which("gcc"):
-        return "skipped: no C compiler for the race detector"
+        return "skipped: no C compiler for the race detector", None
     rbin, log = ctx.build_harness("c10", race=True)
     if not rbin:
-        ctx.report({"unchecked": "race-detector build of cmd/c10", "detail": log[-3000:]},
-                   {"kind": "build"}, failing_input=False)
-        return "build failed"
+        d.add({"unchecked": "race-detector build of cmd/c10", "detail": log[-3000:]}, {"kind": "build"})
+        return "build failed", None
     prefix = os.path.join(ctx.scratch, "cases_race")
     rc, out = vlib.sh([rbin, "-seed", str(ctx.seed + 1), "-out", prefix, "-mode", "concurrent",
                        "-n", "12", "-g", "16", "-len", "200"], timeout=1500)
     if "DATA RACE" in out or rc == 66:
-        ctx.report({"unchecked": "data-race freedom of concurrent Get/MustGet/GetOrDefault",
-                    "detail": out[-4000:]}, {"kind": "data_race"}, failing_input=False)
-        return "DATA RACE reported"
+        d.add({"unchecked": "data-race freedom of concurrent Get/MustGet/GetOrDefault (race detector report)",
+               "detail": out[-4000:]}, {"kind": "data_race"})
+        return "DATA RACE reported", None
     if rc != 0:
-        ctx.report({"unchecked": "race-detector run of cmd/c10", "detail": out[-3000:]},
-                   {"kind": "harness"}, failing_input=False)
-        return "run failed (rc %d)" % rc
+        d.add({"unchecked": "race-detector run of cmd/c10", "detail": out[-3000:]}, {"kind": "harness"})
+        return "run failed (rc %d)" % rc, None
     t = open(prefix + ".cases").read().splitlines()
     j = [json.loads(l) for l in open(prefix + ".jsonl").read().splitlines()]
-    terms += t
-    jsons += j
-    return "12 runs x 16 goroutines x <=200 requests under -race: no race reported"
+    return "12 runs x 16 goroutines x <=200 requests under -race: no race reported", (t, j)
 
 
 def replay(ctx, path):
